@@ -54,12 +54,13 @@ class Tokenizer:
                 tok = self._stack.pop()
             else:
                 tok = self._next_raw()
+            if not self._path:
+                # also remember lines that hold only dropped tokens (blank lines inside brackets)
+                self._lines.setdefault(tok.start[0], tok.line)
             if self.is_blank(tok):
                 continue
 
             self._tokens.append(tok)
-            if not self._path and tok.start[0] not in self._lines:
-                self._lines[tok.start[0]] = tok.line
         return self._tokens[self._index]
 
     def _next_raw(self) -> TokenInfo:
@@ -197,7 +198,7 @@ class Tokenizer:
                         if seen == n:
                             break
 
-        return [lines[n] for n in line_numbers]
+        return [lines.get(n, "") for n in line_numbers]
 
     def mark(self) -> Mark:
         return self._index
